@@ -36,6 +36,10 @@ Next ==
        \E n \in 1..3, stack \in BOOLEAN : \E zeros \in SUBSET (1..(n * n)) :
           /\ (stack => n <= 2)
           /\ vec' = [kind |-> "det", n |-> n, stack |-> stack, zeros |-> zeros]
+  \* 4 x 4: dense, one zero entry, a zero row, upper triangular (the sign of the cofactors shows from order 4 on)
+  \/ vec.kind = "fn" /\ vec.fn = "det" /\
+       \E zeros \in {{}, {6}, {5, 6, 7, 8}, {5, 9, 10, 13, 14, 15}, {2, 3, 4, 7, 8, 12}} :
+          vec' = [kind |-> "det", n |-> 4, stack |-> FALSE, zeros |-> zeros]
   \/ vec.kind = "fn" /\ vec.fn = "matmul" /\ \E s \in MatShapes : vec' = [kind |-> "matmul", a |-> s.a, b |-> s.b]
   \/ vec.kind = "fn" /\ vec.fn = "inner" /\ \E n \in 1..3 : vec' = [kind |-> "inner", n |-> n]
   \/ vec.kind = "fn" /\ vec.fn = "outer" /\ \E n \in 1..3, m \in 1..3 : vec' = [kind |-> "outer", n |-> n, m |-> m]
